@@ -102,6 +102,7 @@ def run(ck):
         if o2.get("t%d" % i) != data.hex():
             ck.violation("mode %d decryptor does not restore the encryptor's input" % m, {"class": None, "mode": m, "key": k.hex(), "iv": iv.hex(), "data": data.hex(), "after_roundtrip": o2.get("t%d" % i)})
     long_streams(ck, exe)
+    unoptimised_build_runs(ck, [c.line for c in cases if "nist-vector" in c.cls or "blocks=3+" in c.cls][:40], "mode streams")
     parallel_purity(ck, exe, ["mode %s %d %s %s %s" % (r.choice("ed"), i % 5, rb(r, 16).hex(), rb(r, 20).hex(), rb(r, 16 * 6).hex()) for i in range(20)], "mode stream objects with different keys", iters=600)
     return finish_proof(ck, rule="per mode and direction: IVs with 0..16 trailing 0xFF bytes (counter carry through every byte), stream lengths 0..11 and random up to 40 blocks (thorough: 300-block streams), random keys; NIST SP 800-38A F.1.1/F.2.1/F.3.13/F.4.1/F.5.1 vectors; factory numbers 5,6,7,100,255; plus encrypt->decrypt round trips on the implementation. distinct = distinct case lines")
 
